@@ -115,6 +115,8 @@ inductive Op where
   | restart
   | obstacle
   | unobstacle
+  /-- background rotation: wait until no rotation thread is left, then look at the disk -/
+  | quiesce
   deriving Repr, DecidableEq
 
 structure SpecCtx where
@@ -156,6 +158,7 @@ def checkHistory (x : SpecCtx) : SpecState → List (Op × OpObs) → Option (St
     let c := x.cfg
     let r := c.roller
     match op with
+    | .quiesce => checkHistory x { s with prev := o.final } rest
     | .obstacle | .unobstacle =>
       if (withoutActive x.obstaclePath o.final).files.all (fun e => s.prev.get? e.1 = some e.2) &&
           (withoutActive x.obstaclePath s.prev).files.all (fun e => o.final.get? e.1 = some e.2)
@@ -214,5 +217,60 @@ def checkHistory (x : SpecCtx) : SpecState → List (Op × OpObs) → Option (St
         | none =>
           -- the rotation never reached its first step (count = 0 is outside C08's cases)
           some ("no rotation although the trigger fired", "C08/no-rotation")
+
+/-- phase 2 of a background rotation as the driver uses it (= `Background.phase2`) -/
+def phase2Disk (r : RollerCfg) (tmp : Path) (fault : Nat → Bool) (d : Disk) : Disk :=
+  (fixedWindowRoll r tmp fault d).2
+
+/-! ### background rotation: the statement read at quiescence -/
+
+structure BgSpecState where
+  /-- everything that may legitimately be on disk, oldest first: the stream when the appender was
+  (re)started followed by every record written since -/
+  written : Bytes
+  /-- segments closed by a rotation since the (re)start, newest first; the current segment -/
+  closed : List Bytes
+  active : Bytes
+
+def hasPrefix (p s : Path) : Bool := p.isPrefixOf s
+
+/-- At every quiescent point of a history under `background_rotation`: nothing is left under a
+temp name (a name that is neither managed by the roller nor the active path), the stream read
+back is a gap-free suffix of what was written, and the newest `count` closed segments and the
+current one are all there — no acknowledged record lost or duplicated. -/
+def checkBgHistory (c : AppCfg) (tempPrefix : Path) :
+    BgSpecState → List (Op × OpObs) → Option (String × String)
+  | _, [] => none
+  | s, (op, o) :: rest =>
+    let r := c.roller
+    if o.res = "PANIC" then some ("append panicked", "C08/panic")
+    else if o.res = "TIMEOUT" then some ("background rotation never finished", "C08/background-hang")
+    else match op with
+    | .restart =>
+      if o.res ≠ "rs:ok" then some ("a restarted appender cannot open its file", "C08/restart-failed")
+      else checkBgHistory c tempPrefix
+        { written := streamOf r c.file o.final, closed := [], active := (o.final.get? c.file).getD [] } rest
+    | .append rec answer =>
+      if o.res = "crash" then checkBgHistory c tempPrefix s rest
+      else if o.res ≠ "ok" then some ("append failed although nothing obstructs the active file", "C08/append-failed")
+      else
+        let s' : BgSpecState :=
+          if c.pre then
+            if answer then { written := s.written ++ rec, closed := s.active :: s.closed, active := rec }
+            else { s with written := s.written ++ rec, active := s.active ++ rec }
+          else
+            if answer then { written := s.written ++ rec, closed := (s.active ++ rec) :: s.closed, active := [] }
+            else { s with written := s.written ++ rec, active := s.active ++ rec }
+        checkBgHistory c tempPrefix s' rest
+    | .quiesce =>
+      if o.final.files.any (fun e => hasPrefix tempPrefix e.1) then
+        some ("acknowledged data is stranded under a temp name of background rotation",
+          "C08/background-temp-file-stranded")
+      else if !isSuffix (streamOf r c.file o.final) s.written then
+        some ("the stream at quiescence is not a gap-free suffix of what was written", "C08/background-stream")
+      else if !isSuffix (flat ((s.closed.take r.count).reverse) ++ s.active) (streamOf r c.file o.final) then
+        some ("an acknowledged record is missing at quiescence", "C08/background-record-lost")
+      else checkBgHistory c tempPrefix s rest
+    | _ => some ("operation not available under background rotation", "C08/harness")
 
 end Log4rs.Roller
